@@ -13,6 +13,8 @@ import TwModel
 import TwSpec
 import TwProofs.Lemmas.Utf8Valid
 import TwProofs.Lemmas.TrimSplit
+import TwProofs.Lemmas.TextCall
+import TwProofs.C12
 
 namespace Tw.C11
 open Tw
@@ -209,5 +211,40 @@ theorem array_contains_is_membership (xs : List Val) (t : Val) (rest : List Val)
   simp [arrBuiltin, b, utf8Bytes]
 
 example : splitBytes (b "a,b,,c") (b ",") = [b "a", b "b", [], b "c"] ∧ trimRightSet (trimLeftSet (b "  é x ") (b " ")) (b " ") = b "é x" := by decide
+
+/-! ### a built-in function called on a variable, from the source bytes -/
+
+/-- **`{{ k.fn() }}` from the source bytes**: for every data map with distinct keys, every entry
+    `(k, g)` whose value converts to a value with built-in functions (string, array, number, boolean)
+    and every function `fn` of that type which accepts an empty argument list, the template
+    `{{ k.fn() }}` — any white space inside the braces — renders the printed result of the built-in
+    on the converted value.  The contracts of this file (UTF-8 validity, slice bounds, trim / split
+    laws, …) are statements about `callBuiltin`, which is what the template reaches.  Lexer
+    (`lex_call`), parser (`parse_call_stmt`) and evaluator composed. -/
+theorem builtin_call_prints_from_source (custom : List ((VType × Bytes) × Nat)) (data : List (Bytes × GoVal)) (env : Env)
+    (hd : KeysDistinct data) (h : envFromMap data = .ok env) (k : Bytes) (g : GoVal) (hm : (k, g) ∈ data) (hk : isName k)
+    (fn : Bytes) (hfn : isName fn) (g1 g2 : Bytes) (hg1 : allWs g1) (hg2 : allWs g2) (rv : Val) (hrv : nativeToObject g = some rv)
+    (htab : hasBuiltinTable rv.type = true) (v : Val) (hcall : callBuiltin rv fn [] = some (.ok v)) :
+    evaluateStringPure custom (callSrc g1 k fn g2) data = .ok v.toStr := by
+  obtain ⟨v0, hv0, hget⟩ := C12.data_is_visible data env hd h k g hm
+  have hv0' : v0 = rv := by rw [hrv] at hv0; cases hv0; rfl
+  subst hv0'
+  obtain ⟨prog, t2, t4, t6, hp, hs⟩ := parse_call_source g1 k fn g2 hg1 hg2 hk hfn
+  unfold evaluateStringPure envOrFail
+  rw [hp]
+  simp only [h, hs]
+  rw [show evalFuel = (evalFuel - 4) + 1 + 1 + 1 + 1 from by decide, evalProg_cons, evalStmt_succ]
+  simp only [stmtBody, calleesAt_expr]
+  simp only [evalExpr, hget, htab, evalExprs, hcall, Bool.not_true, Bool.false_eq_true, if_false, Res.bind_ok]
+  rw [evalProg_nil]
+  simp [resToOut]
+
+example : evaluateStringPure [] (b "{{ name.upper() }}") [(b "name", .str (b "ann"))] = .ok (b "ANN") := by
+  have := builtin_call_prints_from_source [] [(b "name", .str (b "ann"))] [[(b "name", .str (b "ann"))]] (by simp [KeysDistinct]) (by rfl)
+    (b "name") (.str (b "ann")) (by simp) (by decide) (b "upper") (by decide) [32] [32] (by decide) (by decide) (.str (b "ann")) (by rfl) (by rfl)
+    (.str (b "ANN")) (by rfl)
+  have hs : callSrc [32] (b "name") (b "upper") [32] = b "{{ name.upper() }}" := by decide
+  rw [hs] at this
+  exact this
 
 end Tw.C11
